@@ -35,7 +35,7 @@ def configs(tier):
         for fl in ('hlle', 'hllc'):
             for g in (['7/5'] if q else ['7/5', '2']):
                 out.append({'model': 'euler1d', 'flux': fl, 'bc': bc, 'gamma': g, 'timeout_ms': to, 'budget_s': max(bud, 500 if fl == 'hlle' else 295),
-                            'lemma': False, 'guided_tries': 3000, 'guided_min_size': 5})
+                            'lemma': False, 'guided_tries': 3000, 'guided_min_size': 5, **({'sweep_budget_s': 200} if fl == 'hlle' and q else {})})
     return out
 
 
@@ -246,7 +246,7 @@ def _hlle_state_chain(cfg, B, model, prim, rhs, f, dt, dx, n):
         Ui, _ = cons_flux(prim[0][i], prim[1][i], prim[2][i])
         for k, nm in enumerate(('mass', 'momentum', 'energy')):
             B.ob('chain-P:update-%s=convex-combination[%d]' % (nm, i), 'eq', f.data[k][i], wgt * Ui[k] + a * Ust[fp][k] + b * Ust[fm][k],
-                 method='sweep', meta=lem)
+                 method='sweep', meta=lem, timeout_ms=90000)
         B.ob('chain-P:weights>=0[%d]' % i, 'true', (a >= 0) & (b >= 0) & (wgt >= 0), assume=extras,
              meta={'sqrt_level': 0, 'lemma': True}, timeout_ms=min(cfg.get('timeout_ms', 20000), 20000))
     if not B.symbolic:
